@@ -7,6 +7,7 @@ import (
 	"encoding/hex"
 	"encoding/json"
 	"fmt"
+	"io"
 	"net"
 	"reflect"
 	"strconv"
@@ -34,6 +35,126 @@ func (c *c19Conn) RemoteAddr() net.Addr             { return c19Addr{} }
 func (c *c19Conn) SetDeadline(time.Time) error      { return nil }
 func (c *c19Conn) SetReadDeadline(time.Time) error  { return nil }
 func (c *c19Conn) SetWriteDeadline(time.Time) error { return nil }
+
+// c19ChunkConn delivers its data one piece per Read (never more than the rest of the current
+// piece, never more than fits), then EOF: the transport fragments the stream.
+type c19ChunkConn struct {
+	c19Conn
+	chunks   [][]byte
+	consumed int
+}
+
+func (c *c19ChunkConn) Read(p []byte) (int, error) {
+	for len(c.chunks) > 0 && len(c.chunks[0]) == 0 {
+		c.chunks = c.chunks[1:]
+	}
+	if len(c.chunks) == 0 {
+		return 0, io.EOF
+	}
+	n := copy(p, c.chunks[0])
+	c.chunks[0] = c.chunks[0][n:]
+	c.consumed += n
+	return n, nil
+}
+
+// c19Pats parses "3,2+5,..." into lists of ascending cut positions.
+func c19Pats(s string) [][]int {
+	var out [][]int
+	for _, p := range strings.Split(s, ",") {
+		var cuts []int
+		for _, f := range strings.Split(p, "+") {
+			v, err := strconv.Atoi(f)
+			if err != nil {
+				panic(err)
+			}
+			cuts = append(cuts, v)
+		}
+		out = append(out, cuts)
+	}
+	return out
+}
+
+// c19Pieces cuts buf at the given positions (positions beyond the end give empty pieces).
+func c19Pieces(dst [][]byte, buf []byte, cuts []int) [][]byte {
+	dst = dst[:0]
+	pos := 0
+	for _, c := range cuts {
+		if c > len(buf) {
+			c = len(buf)
+		}
+		dst = append(dst, buf[pos:c])
+		pos = c
+	}
+	return append(dst, buf[pos:])
+}
+
+// c19Fragmented appends, for the stream buf delivered under every cut pattern, the readHeader
+// result (with "@<bytes consumed>" if withConsumed); one token if all patterns agree, else all
+// of them joined by '/'.
+func c19Fragmented(dst []byte, c *Client, conn *c19ChunkConn, buf []byte, pats [][]int, withConsumed bool) []byte {
+	var toks [][]byte
+	same := true
+	var pieces [][]byte
+	for _, cuts := range pats {
+		pieces = c19Pieces(pieces, buf, cuts)
+		conn.chunks = append(conn.chunks[:0], pieces...)
+		conn.consumed = 0
+		h, err := c.readHeader()
+		tok := c19Hdr(nil, h, err)
+		if withConsumed {
+			tok = append(tok, '@')
+			tok = strconv.AppendInt(tok, int64(conn.consumed), 10)
+		}
+		if len(toks) > 0 && !bytes.Equal(tok, toks[0]) {
+			same = false
+		}
+		toks = append(toks, tok)
+	}
+	if same && len(toks) > 0 {
+		return append(dst, toks[0]...)
+	}
+	return append(dst, bytes.Join(toks, []byte{'/'})...)
+}
+
+// c19Piped does the same over a real net.Pipe and a Client with a read timeout: the peer
+// writes the pieces one Write at a time (net.Pipe hands each Write to separate Reads) and then
+// closes its end.
+func c19Piped(dst []byte, buf []byte, pats [][]int) []byte {
+	var toks [][]byte
+	same := true
+	for _, cuts := range pats {
+		peer, cli := net.Pipe()
+		c := NewClient(WithTimeout(5 * time.Second))
+		c.conn = cli
+		pieces := c19Pieces(nil, buf, cuts)
+		done := make(chan struct{})
+		go func() {
+			defer close(done)
+			_ = peer.SetWriteDeadline(time.Now().Add(5 * time.Second))
+			for _, p := range pieces {
+				if len(p) == 0 {
+					continue
+				}
+				if _, err := peer.Write(p); err != nil {
+					break
+				}
+			}
+			_ = peer.Close()
+		}()
+		h, err := c.readHeader()
+		_ = cli.Close()
+		<-done
+		tok := c19Hdr(nil, h, err)
+		if len(toks) > 0 && !bytes.Equal(tok, toks[0]) {
+			same = false
+		}
+		toks = append(toks, tok)
+	}
+	if same && len(toks) > 0 {
+		return append(dst, toks[0]...)
+	}
+	return append(dst, bytes.Join(toks, []byte{'/'})...)
+}
 
 func c19Csv(s string) []uint64 {
 	var out []uint64
@@ -88,6 +209,12 @@ func c19Decode(dst []byte, c *Client, conn *c19Conn, buf []byte) []byte {
 //	enc <ver> <typ> <len,..> <id,..>  Header{version, typ, payloadLen, id}: per header
 //	                                  "<MarshalBinary>|<WriteTo>|<writeHeader>" (hex, E = refused,
 //	                                  "=" = same as MarshalBinary)
+//	frg <w> <len,..> <id,..> <pats>   the dec headers delivered to readHeader in pieces: pats is a
+//	                                  list of cut patterns ("3" = bytes [0,3) then [3,10); "2+5" =
+//	                                  three pieces); per header the result, once if all patterns
+//	                                  agree, else one per pattern joined by '/'
+//	rfg <hex> <pats>                  the same for an arbitrary stream, with "@<bytes consumed>"
+//	pip <hex> <pats>                  the same over net.Pipe with a read timeout (no "@")
 //	tables                            JSON dump of the message-type functions for all codes
 func TestVerifC19(t *testing.T) {
 	lines, w, done := verifIO(t)
@@ -95,6 +222,9 @@ func TestVerifC19(t *testing.T) {
 	conn := &c19Conn{}
 	c := NewClient()
 	c.conn = conn
+	chunkConn := &c19ChunkConn{}
+	cf := NewClient()
+	cf.conn = chunkConn
 	var out []byte
 	for _, line := range lines {
 		f := strings.Fields(line)
@@ -114,6 +244,34 @@ func TestVerifC19(t *testing.T) {
 					}
 					out = c19Decode(out, c, conn, buf)
 				}
+			}
+		case "frg":
+			w16, _ := strconv.ParseUint(f[1], 10, 16)
+			lens, ids, pats := c19Csv(f[2]), c19Csv(f[3]), c19Pats(f[4])
+			buf := make([]byte, 10)
+			for _, l := range lens {
+				for _, id := range ids {
+					buf[0], buf[1] = byte(w16>>8), byte(w16)
+					buf[2], buf[3], buf[4], buf[5] = byte(l>>24), byte(l>>16), byte(l>>8), byte(l)
+					buf[6], buf[7], buf[8], buf[9] = byte(id>>24), byte(id>>16), byte(id>>8), byte(id)
+					if len(out) > 0 {
+						out = append(out, ' ')
+					}
+					out = c19Fragmented(out, cf, chunkConn, buf, pats, false)
+				}
+			}
+		case "rfg", "pip":
+			var buf []byte
+			if f[1] != "-" {
+				var err error
+				if buf, err = hex.DecodeString(f[1]); err != nil {
+					t.Fatal(err)
+				}
+			}
+			if f[0] == "rfg" {
+				out = c19Fragmented(out, cf, chunkConn, buf, c19Pats(f[2]), true)
+			} else {
+				out = c19Piped(out, buf, c19Pats(f[2]))
 			}
 		case "raw":
 			var buf []byte
